@@ -79,8 +79,9 @@ RECURSIVE Mids(_, _)
 Mids(x, t) == IF x.timer <= t THEN {Roll(x)} \cup Mids(Roll(x), t) ELSE {}
 
 Pub(x) == [per |-> x.cur, hs |-> x.addr]
-\* only the publications of the current and the previous period can still matter
-Prune(h, c) == {e \in h : e.per >= c - W}
+\* the publications of the current and the previous period matter; one older period is kept to show that the
+\* requirement ends (ReachLearnedExpired)
+Prune(h, c) == {e \in h : e.per >= c - 2 * W}
 
 Obs(x) == [nb |-> x.cur, na |-> End(x.cur), nextnb |-> x.next, adv |-> x.adv, addr |-> x.addr,
            haslast |-> x.last # None]
@@ -159,9 +160,26 @@ NextServedNext == started => /\ m.timer > now
                              /\ m.next + K <= m.timer
                              /\ m.timer <= End(m.next) - K
 
-(* an address learned at any time keeps verifying through the current and the following period *)
+(* END TO END: an address (the certhash set of AddrComponent) learned at any time keeps verifying through
+   the current and the following period.  A dial at `now` with the address e.hs succeeds iff
+     - the served certificate is pinned by it                (verifyRawCerts:  m.cur \in e.hs), and
+     - the server confirms EVERY hash of it in the handshake (transport.upgrade: e.hs \subseteq x.adv, where
+       x.adv is what SerializedCertHashes() puts into the Noise early data).
+   The second conjunct needs the PREVIOUS certificate in the advertised list for the whole following
+   period.  A manager started (restarted) inside the period that follows the one the address was learned in
+   has lastConfig = nil and cannot confirm the older hash: the code is modelled as it is, the clause for that
+   case is LearnedSurvivesRestart below (violated by the design; see known_findings.d/C18.json). *)
+InWindow(e) == m.cur = e.per \/ m.cur = e.per + W
+DialVerifies(e, x) == x.cur \in e.hs /\ e.hs \subseteq x.adv
+FreshInFollowing(e) == m.cur = e.per + W /\ m.last = None
 LearnedKeepsVerifying ==
-  started => \A e \in hist : (m.cur = e.per \/ m.cur = e.per + W) => m.cur \in e.hs
+  started => \A e \in hist : InWindow(e) => /\ DialVerifies(e, sh)     \* the manager that ran continuously
+                                            /\ m.cur \in e.hs
+                                            /\ (FreshInFollowing(e) \/ DialVerifies(e, m))
+(* the statement's clause without the exemption *)
+LearnedSurvivesRestart == started => \A e \in hist : InWindow(e) => DialVerifies(e, m)
+(* ... and the requirement ends there: two periods later the address need not (and does not) verify *)
+ReachLearnedExpired == ~(started /\ \E e \in hist : ~InWindow(e) /\ ~DialVerifies(e, sh))
 
 (* certificates are a function of (offset, time bucket): a restarted manager serves what the one that
    ran continuously serves, and both serve the bucket containing now - skew *)
